@@ -974,6 +974,7 @@ class Server:
             path_io_factory=self.path_io_factory,
             path_timeout=self.path_timeout,
             extra_workers=set(),
+            logouts=set(),
             throttles_per_user={},
             # response queued when writer is gone would be waited for ever
             response=lambda *args: (
@@ -1081,6 +1082,8 @@ class Server:
                 stream.close()
             if connection.acquired:
                 self.available_connections.release()
+            # logout which another USER began is waited for, not begun again
+            tasks_to_wait.extend(connection.logouts)
             if connection.future.user.done():
                 task = asyncio.create_task(
                     self.user_manager.notify_logout(connection.user),
@@ -1176,7 +1179,17 @@ class Server:
 
     async def user(self, connection, rest):
         if connection.future.user.done():
-            await self.user_manager.notify_logout(connection.user)
+            # session is detached from its user before user manager is told,
+            # by a task which the end of session waits for: session which
+            # ends meanwhile neither stops this logout half-way nor reports
+            # it a second time
+            task = asyncio.create_task(
+                self.user_manager.notify_logout(connection.user),
+            )
+            del connection.user
+            connection.logouts.add(task)
+            task.add_done_callback(connection.logouts.discard)
+            await asyncio.shield(task)
         del connection.user
         del connection.logged
         del connection.rename_from
